@@ -53,6 +53,8 @@ pub struct Doc {
     pub history: Vec<String>,
     /// Has the server been told about it in the current server lifetime?
     pub known_to_server: bool,
+    /// step at which the client last sent a new text for it
+    pub last_change_step: u64,
 }
 
 #[derive(Clone, Debug)]
@@ -104,6 +106,8 @@ pub struct Response {
     pub result: Value,
     pub error: Value,
     pub step: u64,
+    /// step at which the request was sent
+    pub req_step: u64,
 }
 
 #[derive(Default)]
@@ -193,6 +197,7 @@ impl Client {
                     d.version = version;
                     d.history = vec![text];
                     d.known_to_server = true;
+                    d.last_change_step = step;
                 }
             }
             "textDocument/didChange" => {
@@ -204,6 +209,7 @@ impl Client {
                         d.text = text.clone();
                         d.version = version;
                         d.history.push(text);
+                        d.last_change_step = step;
                     }
                 }
             }
@@ -371,6 +377,7 @@ impl Client {
                             result: v.get("result").cloned().unwrap_or(Value::Null),
                             error: v.get("error").cloned().unwrap_or(Value::Null),
                             step,
+                            req_step: p.sent_step,
                         });
                     } else {
                         self.protocol_errors.push(format!("response to unknown request id {idn}"));
